@@ -4,17 +4,23 @@
 package state
 
 //@ func ImmutableState.CurrentValidators
-//@   trusted
+//@   props C14
+//@   trustframe
 //@   modifies nothing
-//@   ensures err != nil ==> result0 == nil
-//@   ensures err == nil ==> forall k signature.PublicKey :: inDom(result0, k) ==> result0[k] != nil
+//@   ensures-trusted err != nil ==> result0 == nil
+//@   ensures-trusted err == nil ==> forall k signature.PublicKey :: inDom(result0, k) ==> result0[k] != nil
 //@   note decodes the stored current validator map; stored maps never hold nil validators (written by electValidators, whose call-site obligation on PutPendingValidators proves it, and by InitChain)
+//@   precall \)\.Get$ :: keyId(argAs[[]byte](1)) == keyOf(validatorsCurrentKeyFmt)
+//@   note partially verified: the state-tree key this accessor reads or writes is checked (call-site obligation); the meaning of the stored bytes (CBOR round trip) stays assumed (ensures-trusted)
 
 //@ func ImmutableState.PendingValidators
-//@   trusted
+//@   props C14
+//@   trustframe
 //@   modifies nothing
-//@   ensures err != nil ==> result0 == nil
-//@   ensures err == nil ==> forall k signature.PublicKey :: inDom(result0, k) ==> result0[k] != nil
+//@   ensures-trusted err != nil ==> result0 == nil
+//@   ensures-trusted err == nil ==> forall k signature.PublicKey :: inDom(result0, k) ==> result0[k] != nil
+//@   precall \)\.Get$ :: keyId(argAs[[]byte](1)) == keyOf(validatorsPendingKeyFmt)
+//@   note partially verified: the state-tree key this accessor reads or writes is checked (call-site obligation); the meaning of the stored bytes (CBOR round trip) stays assumed (ensures-trusted)
 
 //@ func MutableState.PutPendingValidators
 //@   props C14
